@@ -26,6 +26,14 @@ class DataModelSpace(data_algebra.data_space.DataSpace):
         self.data_map = dict()
         self.n_tmp = 0
 
+    def _new_key(self) -> str:
+        """Generate an automatic key that is not currently in use."""
+        while True:
+            self.n_tmp = self.n_tmp + 1
+            key = f"da_temp_{self.n_tmp}"
+            if key not in self.data_map.keys():
+                return key
+
     def insert(
         self, *, key: Optional[str] = None, value, allow_overwrite: bool = True
     ) -> data_algebra.data_ops.TableDescription:
@@ -38,8 +46,7 @@ class DataModelSpace(data_algebra.data_space.DataSpace):
         :return: table description
         """
         if key is None:
-            self.n_tmp = self.n_tmp + 1
-            key = f"da_temp_{self.n_tmp}"
+            key = self._new_key()
         assert isinstance(key, str)
         assert isinstance(allow_overwrite, bool)
         assert self.data_model.is_appropriate_data_instance(value)
@@ -90,8 +97,7 @@ class DataModelSpace(data_algebra.data_space.DataSpace):
         :return: data key
         """
         if key is None:
-            self.n_tmp = self.n_tmp + 1
-            key = f"da_temp_{self.n_tmp}"
+            key = self._new_key()
         assert isinstance(key, str)
         assert isinstance(allow_overwrite, bool)
         if not allow_overwrite:
